@@ -15,6 +15,7 @@ import TraitsVerif.Lemmas.DelegChain
 import TraitsVerif.Lemmas.DelegNotify
 import TraitsVerif.Lemmas.DelegWitness
 import TraitsVerif.Lemmas.DelegSrc
+import TraitsVerif.Lemmas.DelegCopy
 namespace TraitsVerif.Props.C11
 open TraitsVerif TraitsVerif.Model.Deleg TraitsVerif.Model.Deleg.Witness
 
@@ -518,6 +519,24 @@ theorem C11_prototype_assign_reports (E : Env) (i : Nat) (p : Pool) (o : ObjId) 
   show (notify _ (p.size + 1) o n old w).head? = _
   rw [notify_succ]; rfl
 
+/-- **A local value of a PrototypedFrom attribute is what a direct assignment to the target trait would
+store**: whatever the prototype's trait stores for `v` (`Env.validate`: the validated value, or — for the
+'original value' kinds Expression / AdaptsTo, driver spec `oshift` — the assigned value itself) is what the
+deferring object holds after `o.n = v`, and what the prototype would hold after `x.t = v` (seed C11-m12 —
+the flag TRAIT_SETATTR_ORIGINAL_VALUE read from the deferring trait — makes the two differ). -/
+theorem C11_prototype_stores_what_target_stores (E : Env) (i : Nat) (p : Pool) (o : ObjId) (n : Name) (d : DelegInfo)
+    (x : ObjId) (t : Name) (vid : Nat) (dflt : Val) (cmp : Cmp) (v w old : Val)
+    (htd : (p.obj o).cls.trait n = .defer d) (hm : d.modify = false)
+    (hw : walk p (p.obj o).cls.pfx 100 o d n = .ok (x, t, .plain vid dflt cmp))
+    (hv : E.validate vid i v = .ok w) (hr : read p p.fuel o n = .ok old) :
+    ((step E i p (.set o n v)).pool.obj o).dict n = some w
+    ∧ ((step E i p (.set x t v)).pool.obj x).dict t = some w := by
+  obtain ⟨hx, _, h3⟩ := C11_prototype_assign E i p o n d x t vid dflt cmp v htd hm hw
+  obtain ⟨hp, _, _, _, _, _⟩ := h3 w old hv hr
+  refine ⟨?_, ?_⟩
+  · rw [hp]; simp [unlink, Pool.setFwd, Pool.setDict, Pool.upd]
+  · simp [step, hx, setPlain, hv, Pool.setDict, Pool.upd]
+
 /-- `fires` distinguishes the modes on an equal-but-distinct value (here `==` identifies 1 and 101): reported
 under identity and none, not under equality; the very same object again is reported under none only. -/
 example : let E : Env := { validate := fun _ _ v => .ok v, eqv := fun a b => a % 100 == b % 100 }
@@ -841,5 +860,51 @@ example : execGet getattrDelegate protoPool (some (read protoPool 3)) 0 nx (mkDe
   decide
 
 end Source
+
+/-! ## Copies: pickle round trip, `copy.copy`
+
+`Pool.restore` is the state `HasTraits.__setstate__` builds (the whole pool unpickled, or one object
+copied): same values and delegates, forwarders re-created exactly for the linked attributes.  Every
+theorem above is proved from `Inv` (and `Linked`); the copy preserves them, so the history can continue
+on the copy with the same guarantees ("only behaviour after a copy"). -/
+
+/-- **A copy behaves like the original.**  For every pool satisfying the invariants of C11 (every
+reachable pool, `C11_linked_reachable`) and either kind of copy: the invariants hold again; every read —
+through any chain — returns what it returned before; on a copied object a linked deferring attribute has
+its forwarder hooked on the current delegate (so `Linked` holds for it even if the original had lost the
+forwarder), and an attribute with a local value — a broken prototype link — has none, hence no change of
+any other attribute anywhere is ever reported to its handlers (what seed C11-m13, `_init_trait_listeners`
+after `trait_set` in `__setstate__`, breaks). -/
+theorem C11_copy (p : Pool) (w : Option ObjId) (I : Inv p) :
+    Inv (p.restore w)
+    ∧ (∀ f o n, read (p.restore w) f o n = read p f o n)
+    ∧ (∀ o n d, (w = none ∨ w = some o) → (p.obj o).cls.trait n = .defer d →
+        ((p.obj o).dict n = none → ((p.restore w).obj o).fwd n = some ((p.restore w).obj o).deleg)
+        ∧ ((p.obj o).dict n ≠ none → ((p.restore w).obj o).fwd n = none))
+    ∧ (∀ o n d, ((p.restore w).obj o).cls.trait n = .defer d → ((p.restore w).obj o).dict n ≠ none →
+        ∀ f x t a b, ¬(x = o ∧ t = n) → ∀ e ∈ notify (p.restore w) f x t a b, ¬(e.obj = o ∧ e.name = n)) := by
+  have I' := restore_inv p w I
+  refine ⟨I', read_restore p w, ?_, ?_⟩
+  · intro o n d hw htd
+    have h := restore_link_state p w o n d hw htd
+    refine ⟨fun hd => ?_, fun hd => ?_⟩
+    · rw [h, hd, restore_deleg]
+    · rw [h]
+      cases hdn : (p.obj o).dict n with
+      | none => exact absurd hdn hd
+      | some v => rfl
+  · intro o n d htd hd f x t a b hne e he
+    have hf := (I'.fwd o n).2 d htd hd
+    rintro ⟨ho, hn⟩
+    obtain ⟨_, _, h3⟩ := notify_mem f x t e he
+    rcases h3 with ⟨h1, h2⟩ | ⟨h, hh⟩
+    · exact hne ⟨by rw [← h1, ho], by rw [← h2, hn]⟩
+    · rw [ho, hn, hf] at hh; cases hh
+
+/-- Non-vacuity: on the F20 pool (`o1.x` holds the local value 7, its forwarder is gone) the pickle round
+trip keeps `o1.x` unlinked and `o0.x` linked to `o1`. -/
+example : ((protoPool.restore none).obj 1).fwd nx = none ∧ ((protoPool.restore none).obj 0).fwd nx = some (some 1) := by
+  decide
+
 
 end TraitsVerif.Props.C11
